@@ -72,13 +72,42 @@ func ZZ_C12_request() {
 	}
 	w.hook = failing
 	schema := zzBuildSchema(w)
-	base := Do(Params{Schema: schema, RequestString: req.text, VariableValues: req.vars})
-	if zzChoice("history", 2) == 1 {
-		Do(Params{Schema: schema, RequestString: "{ a o{x} }"})
+	var base, again *Result
+	if zzChoice("cache", 2) == 1 {
+		// through plan caches: on a fresh cache, and on a cache that first served
+		// the same text while abstract fields resolved to the other runtime type
+		via := func(c *PlanCache) *Result {
+			pr := c.Get(&schema, req.text, "")
+			if pr.Plan == nil {
+				return &Result{Errors: pr.Errors}
+			}
+			args := map[string]interface{}{}
+			for k, v := range req.vars {
+				args[k] = v
+			}
+			for k, v := range pr.SynthArgs {
+				args[k] = v
+			}
+			return ExecutePlan(pr.Plan, ExecuteParams{Schema: schema, Args: args})
+		}
+		norm := zzChoice("normalize", 2) == 1
+		base = via(NewPlanCache(PlanCacheOptions{MaxEntries: 4, Normalize: norm}))
+		c2 := NewPlanCache(PlanCacheOptions{MaxEntries: 4, Normalize: norm})
+		w.runtimeN = "Other"
+		via(c2)
+		w.runtimeN = ""
+		zzMapOrder(true, zzParam("D", 1))
+		again = via(c2)
+		zzMapOrder(false, 0)
+	} else {
+		base = Do(Params{Schema: schema, RequestString: req.text, VariableValues: req.vars})
+		if zzChoice("history", 2) == 1 {
+			Do(Params{Schema: schema, RequestString: "{ a o{x} }"})
+		}
+		zzMapOrder(true, zzParam("D", 1))
+		again = Do(Params{Schema: schema, RequestString: req.text, VariableValues: req.vars})
+		zzMapOrder(false, 0)
 	}
-	zzMapOrder(true, zzParam("D", 1))
-	again := Do(Params{Schema: schema, RequestString: req.text, VariableValues: req.vars})
-	zzMapOrder(false, 0)
 	zzAssert(zzErrorsEqual(base, again), "errors differ between two executions of the same request")
 	zzAssert((base.Data == nil) == (again.Data == nil) && (base.Data == nil || zzDeepEqual(base.Data, again.Data)), "data differs between two executions of the same request")
 	zzCover("end")
